@@ -92,7 +92,7 @@ def sample_sentence(rng, p, max_depth=7, start='start'):
         ok = False
     if not ok:
         return None
-    igs = [s for t in p.terminals if t.name in p.ignore_tokens for s in [' ', '  ', '-', '-=', '-==', '=', ' ='] if re.fullmatch(t.pattern.to_regexp(), s)]
+    igs = [s for t in p.terminals if t.name in p.ignore_tokens for s in [' ', '  ', '-', '-=', '-==', '=', ' =', '_', '~', ' _'] if re.fullmatch(t.pattern.to_regexp(), s)]
     if igs and rng.random() < 0.6:
         res = ''
         for tok in out:
